@@ -38,7 +38,7 @@ def run_seed(sid):
         viol = [l for l in lines if "VIOLATION" in l]
         summ = [l for l in lines if "obligations=" in l]
         m = re.search(r"mismatches=(\d+) oracle_failures=(\d+)", summ[0]) if summ else None
-        if not lines:
+        if not lines or not summ:
             verdict = "not-run"
         elif not viol:
             verdict = "missed"
